@@ -98,6 +98,20 @@ func (t *runTarget) Evaluate(engine runner.Engine) error {
 		}
 	}
 
+	// A dependency that the record holds a stamp for but that is no longer declared has been removed. A body that works
+	// on whatever is declared (self.sources, self.dependencies) would not read it now, and nothing else records that.
+	var removedDeps []string
+	for label := range info.Dependencies {
+		if _, ok := depData[label]; !ok {
+			removedDeps = append(removedDeps, label+" (removed)")
+		}
+	}
+	if len(removedDeps) != 0 {
+		sort.Strings(removedDeps)
+		outOfDateDeps = append(outOfDateDeps, removedDeps...)
+		depsUpToDate = false
+	}
+
 	// Check whether the target is up-to-date.
 	upToDate, reason, diff, err := t.target.upToDate()
 	if err != nil {
